@@ -555,6 +555,60 @@ func sparseSections(r *vlib.Run) {
 		if !(ert <= tol*scaleX*4) {
 			c.Violationf("numerical.SparseCholesky.Apply/inverse-roundtrip", w, "Apply(ApplyInverse(b)) differs from b by %g", ert)
 		}
+		// the permuted copy and the original are independent matrices: both get further entries
+		// (a caller adding couplings to each) and each must hold exactly what was set on it
+		{
+			dump := func(m *numerical.SparseMatrix) map[[2]int]float64 {
+				res := map[[2]int]float64{}
+				for i := 0; i < n; i++ {
+					m.Iterate(i, func(col int, v float64) { res[[2]int{i, col}] += v })
+				}
+				return res
+			}
+			wantP, wantM := dump(pm), dump(mat)
+			freeCol := func(want map[[2]int]float64, row int) int {
+				for k := 0; k < n; k++ {
+					col := (row + 1 + k) % n
+					if _, ok := want[[2]int{row, col}]; !ok {
+						return col
+					}
+				}
+				return -1
+			}
+			for rep := 0; rep < 3; rep++ {
+				i := rng.Intn(n)
+				if col := freeCol(wantP, i); col >= 0 {
+					v := 1 + rng.Float64()
+					pm.Set(i, col, v)
+					wantP[[2]int{i, col}] = v
+				}
+				if col := freeCol(wantM, p[i]); col >= 0 {
+					v := -1 - rng.Float64()
+					mat.Set(p[i], col, v)
+					wantM[[2]int{p[i], col}] = v
+				}
+			}
+			eq := func(a, b map[[2]int]float64) string {
+				for k, v := range a {
+					if w, ok := b[k]; !ok || w != v {
+						return fmt.Sprintf("entry (%d,%d) is %g, expected %g", k[0], k[1], w, v)
+					}
+				}
+				if len(a) != len(b) {
+					return fmt.Sprintf("%d entries, expected %d", len(b), len(a))
+				}
+				return ""
+			}
+			c.Count("sparse.permuted_copy_and_original_both_extended", 1)
+			if why := eq(wantP, dump(pm)); why != "" {
+				w["perm"] = p
+				c.Violationf("numerical.SparseMatrix.Permute/copy-independent-of-original", w, "after further Set calls on the permuted copy and on the original, the permuted copy: %s", why)
+			}
+			if why := eq(wantM, dump(mat)); why != "" {
+				w["perm"] = p
+				c.Violationf("numerical.SparseMatrix.Permute/copy-independent-of-original", w, "after further Set calls on the permuted copy and on the original, the original: %s", why)
+			}
+		}
 		c.Count("numerical.SparseCholesky", 1)
 		c.Count("cholesky."+sys.kind, 1)
 		if n >= 10 {
